@@ -27,7 +27,17 @@ pub type WQuery = crate::route::MyQuery;
 // ContractWrapper entry points (typed for the chain / Empty-typed)
 
 /// what every supplied entry point returns: one attribute naming it, one event, NO data
+thread_local! {
+    /// when set, every supplied entry point fails with its own typed error
+    static SUPPLIED_FAIL: std::cell::Cell<bool> = const { std::cell::Cell::new(false) };
+}
+fn supplied_error(tag: &str) -> cosmwasm_std::StdError {
+    cosmwasm_std::StdError::generic_err(format!("supplied failure {}", tag))
+}
 fn via<C: CustomMsg>(tag: &str) -> StdResult<Response<C>> {
+    if SUPPLIED_FAIL.with(|f| f.get()) {
+        return Err(supplied_error(tag));
+    }
     // messages of every kind an Empty-typed response can carry (they are lifted to the chain's type
     // by the *_empty steps and must come through unchanged)
     #[allow(deprecated)]
@@ -49,6 +59,9 @@ pub fn w_inst_c(_: DepsMut<WQuery>, _: Env, _: MessageInfo, _: Empty) -> StdResu
     via("inst_c")
 }
 pub fn w_query_c(_: Deps<WQuery>, _: Env, _: Empty) -> StdResult<Binary> {
+    if SUPPLIED_FAIL.with(|f| f.get()) {
+        return Err(supplied_error("query_c"));
+    }
     to_json_binary("query_c")
 }
 pub fn w_exec_e(_: DepsMut, _: Env, _: MessageInfo, _: Empty) -> StdResult<Response> {
@@ -58,6 +71,9 @@ pub fn w_inst_e(_: DepsMut, _: Env, _: MessageInfo, _: Empty) -> StdResult<Respo
     via("inst_e")
 }
 pub fn w_query_e(_: Deps, _: Env, _: Empty) -> StdResult<Binary> {
+    if SUPPLIED_FAIL.with(|f| f.get()) {
+        return Err(supplied_error("query_e"));
+    }
     to_json_binary("query_e")
 }
 pub fn w_sudo_c(_: DepsMut<WQuery>, _: Env, _: Empty) -> StdResult<Response<WMsg>> {
@@ -154,6 +170,41 @@ fn check_wrapper(ctx: &Ctx, ctor: &str, steps: &[&str], c: &dyn Contract<WMsg, W
         n += 1;
         if got != want {
             ctx.violation(&format!("c20:wrapper-entry-point:{}", what), case(what, got, want));
+        }
+    }
+    // the failure path: a kept entry point hands back the supplied function's own error value
+    // (callers take it apart with downcast_ref), whatever steps came before or after
+    SUPPLIED_FAIL.with(|f| f.set(true));
+    fn shown<T>(r: Result<AnyResult<T>, String>) -> String {
+        match r {
+            Err(p) => format!("PANIC {}", p),
+            Ok(Ok(_)) => "Ok".into(),
+            Ok(Err(e)) => match e.downcast_ref::<cosmwasm_std::StdError>() {
+                Some(s) => format!("typed error: {}", s),
+                None => format!("error without the supplied error value inside: {:#}", e),
+            },
+        }
+    }
+    let reply_msg = || {
+        #[allow(deprecated)]
+        Reply { id: 1, payload: Binary::default(), gas_used: 0, result: SubMsgResult::Ok(SubMsgResponse { events: vec![], data: None, msg_responses: vec![] }) }
+    };
+    let fchecks: Vec<(&str, String, Option<String>)> = vec![
+        ("execute", shown(catch(|| c.execute(deps.as_mut(), env.clone(), info.clone(), empty.clone()))), Some(we.to_string())),
+        ("instantiate", shown(catch(|| c.instantiate(deps.as_mut(), env.clone(), info.clone(), empty.clone()))), Some(wi.to_string())),
+        ("query", shown(catch(|| c.query(deps.as_ref(), env.clone(), empty.clone()))), Some(wq.to_string())),
+        ("sudo", shown(catch(|| c.sudo(deps.as_mut(), env.clone(), empty.clone()))), steps.iter().find(|s| s.starts_with("sudo")).map(|s| s.to_string())),
+        ("reply", shown(catch(|| c.reply(deps.as_mut(), env.clone(), reply_msg()))), steps.iter().find(|s| s.starts_with("reply")).map(|s| s.to_string())),
+        ("migrate", shown(catch(|| c.migrate(deps.as_mut(), env.clone(), empty.clone()))), steps.iter().find(|s| s.starts_with("migrate")).map(|s| s.to_string())),
+    ];
+    SUPPLIED_FAIL.with(|f| f.set(false));
+    for (what, got, tag) in fchecks {
+        n += 1;
+        if let Some(tag) = tag {
+            let want = format!("typed error: {}", supplied_error(&tag));
+            if got != want {
+                ctx.violation(&format!("c20:wrapper-entry-point-failure:{}", what), case(&format!("{} (the supplied function fails)", what), got, want));
+            }
         }
     }
     n
